@@ -17,12 +17,14 @@ BIG_WIDTHS = (65, 80, 128, 256)
 ID_WIDTHS = (1, 8, 16, 32, 64) + BIG_WIDTHS
 
 PRELUDE = r'''
+#define CASE_CPU_SECONDS 10
 #include <stdio.h>
 #include <stdlib.h>
 #include <stdint.h>
 #include <inttypes.h>
 #include <string.h>
 #include <unistd.h>
+#include <sys/time.h>
 #include "op_semantics.h"
 #include "bn.h"
 
@@ -81,6 +83,9 @@ static uint64_t MEM_LOOKUP_BN_INT(JitCpu *j, int size, bn_t addr)
 
 static void begin(int id, int val, const struct cell *cells, int ncells)
 {
+	/* CPU-time budget per evaluation (not wall clock): SIGPROF ends the process */
+	struct itimerval it = {{0, 0}, {CASE_CPU_SECONDS, 0}};
+	setitimer(ITIMER_PROF, &it, NULL);
 	cur_cells = cells; cur_ncells = ncells; mem_miss = 0; cur_id = id; cur_val = val;
 	dprintf(2, "@@ %d %d\n", id, val);
 	dprintf(resfd, "B %d %d\n", id, val);
@@ -404,7 +409,8 @@ def run_program(exe, cases, workdir):
 
 def _cpu_limit():
     import resource
-    resource.setrlimit(resource.RLIMIT_CPU, (CPU_LIMIT, CPU_LIMIT + 2))
+    # backstop for the whole program; the per-evaluation budget is the ITIMER_PROF set in begin()
+    resource.setrlimit(resource.RLIMIT_CPU, (600, 602))
 
 
 CPU_LIMIT = 10
@@ -422,7 +428,7 @@ def death_reason(rc, text):
         return "runtime rejects: bad READ size"
     if rc == "timeout":
         return "timeout"
-    if isinstance(rc, int) and rc in (-24, -9):
+    if isinstance(rc, int) and rc == -27:
         return "no result within %ds of CPU time" % CPU_LIMIT
     if isinstance(rc, int) and rc < 0:
         return "signal %d" % (-rc)
